@@ -5,8 +5,9 @@ EXTENDS TraceBase
 T(q) == INSTANCE OctTransform WITH Q <- q
 P(x) == <<x[1], x[2]>>
 CheckA(r) ==
+  \* o and p are what the REAL quantiser emitted (OctahedronToolBox::IntegerVectorToQuantizedOctahedralCoords): "the unique representative of a direction
+  \* that the encoder emits" is whatever it emits -- that it is the specification's canonical point is checked as drift below, not assumed here
   IF r.e = "Oct" THEN
-     (T(r.q)!IsCanonical(P(r.o)) /\ T(r.q)!IsCanonical(P(r.p))) =>
          /\ T(r.q)!OctInvertible(P(r.o), P(r.d))
          /\ T(r.q)!OctCorrInRange(P(r.c))
   ELSE IF r.e = "OctInit" THEN r.ok
